@@ -383,6 +383,161 @@ theorem crash (h : Host) (ops : List HOp) (id : Nat) (hid : id < h.nextRing) (op
     lookup_none_of_keys (fun kr hkr => Nat.lt_of_lt_of_le hid (hf.1 kr hkr))
   exact ⟨hl, gone_ring_inert h' id hl op, rfl⟩
 
+/-! ## the ring theorems hold for every ring of every host history -/
+
+theorem lookup_mem {id : Nat} {r : RingSt} : ∀ {rings : List (Nat × RingSt)}, lookupRing id rings = some r → (id, r) ∈ rings
+  | [], h => by simp [lookupRing] at h
+  | (k, r0) :: rest, h => by
+    simp only [lookupRing] at h
+    split at h
+    · rename_i hk; injection h with h; subst h; subst hk; exact List.mem_cons_self
+    · exact List.mem_cons_of_mem _ (lookup_mem h)
+
+theorem setRing_mem (id : Nat) (r : RingSt) : ∀ (rings : List (Nat × RingSt)) (kr : Nat × RingSt),
+    kr ∈ setRing id r rings → kr ∈ rings ∨ kr = (id, r)
+  | [], kr, h => by simp [setRing] at h
+  | (k, r0) :: rest, kr, h => by
+    simp only [setRing] at h
+    split at h
+    · rename_i hk
+      rcases List.mem_cons.mp h with rfl | h'
+      · exact Or.inr (by rw [hk])
+      · exact Or.inl (List.mem_cons_of_mem _ h')
+    · rcases List.mem_cons.mp h with rfl | h'
+      · exact Or.inl List.mem_cons_self
+      · rcases setRing_mem id r rest kr h' with h1 | h1
+        · exact Or.inl (List.mem_cons_of_mem _ h1)
+        · exact Or.inr h1
+
+/-- every registered ring satisfies the ring invariant at the host's clock -/
+def HostInv (h : Host) : Prop := ∀ kr ∈ h.rings, Inv h.now kr.2
+
+theorem HostInv_step {h : Host} (hi : HostInv h) (op : HOp) : HostInv (h.step op).1 := by
+  cases op with
+  | newRing entries =>
+    simp only [Host.step]
+    split
+    · exact hi
+    · intro kr hkr
+      rcases List.mem_append.mp hkr with hkr | hkr
+      · exact hi kr hkr
+      · simp only [List.mem_singleton] at hkr; subst hkr; exact Inv_new _ _
+  | dropRing id => intro kr hkr; exact hi kr (List.mem_filter.mp hkr).1
+  | ring id rop =>
+    simp only [Host.step]
+    split
+    · exact hi
+    · rename_i r hl
+      intro kr hkr
+      rcases setRing_mem _ _ _ kr hkr with h1 | h1
+      · exact hi kr h1
+      · subst h1; exact Inv_ringStep (hi (id, r) (lookup_mem hl)) rop
+  | advance dt => intro kr hkr; exact (hi kr hkr).mono (Nat.le_add_right _ _)
+  | crash => intro kr hkr; simp [Host.step] at hkr
+  | fwrite fd off d => exact hi
+  | fread fd off len => exact hi
+  | fsync fd => exact hi
+  | fclose fd => simp only [Host.step]; split <;> exact hi
+  | fopen p => simp only [Host.step]; split <;> exact hi
+
+theorem HostInv_final (ops : List HOp) : ∀ {h : Host}, HostInv h → HostInv (Host.final h ops) := by
+  induction ops with
+  | nil => intro h hi; exact hi
+  | cons op ops ih => intro h hi; exact ih (HostInv_step hi op)
+
+/-- **C18 on the host machine** (what the driver replays): after any host history — several rings, shim file
+    operations, ring drops, crashes and re-use interleaved — every registered ring satisfies token conservation
+    (`exactly_once`), the SQ bound (`full_sq`), and every completion it ever drained was not early, carries its
+    submission's user_data, and is effect-free `-ECANCELED` if it replaces a cancelled target. -/
+theorem host_rings_ok (fs : Files) (ops : List HOp) :
+    ∀ kr ∈ (Host.final (Host.init fs) ops).rings,
+      (toks kr.2).Perm (List.range kr.2.nextSid) ∧ kr.2.sq.length ≤ kr.2.depth ∧
+      ∀ d ∈ kr.2.drained, d.at_ + d.lat ≤ d.t ∧ (d.sid, d.ud) ∈ kr.2.acc ∧
+        (d.canc = true → d.res = ECANCELED ∧ d.apply = .imm ECANCELED) := by
+  intro kr hkr
+  have hi : Inv _ kr.2 := HostInv_final ops (h := Host.init fs) (by intro kr hkr; simp [Host.init] at hkr) kr hkr
+  refine ⟨hi.tok, hi.sqBound, ?_⟩
+  intro d hd
+  have := hi.doneOk d hd
+  exact ⟨this.notEarly, this.ud, fun hc => ⟨(this.canc hc).2, (this.canc hc).1⟩⟩
+
+/-- Liveness of a full drain: once every in-flight entry has matured and `sync` has been called, `n` calls of
+    `next` (any shuffle) empty the ring, where `n` is what `sync` reported. -/
+theorem drain_all (now : Nat) :
+    ∀ (n : Nat) (fs : Files) (r : RingSt) (picks : List Nat), picks.length = n →
+      r.visible = some n → (pool r).length = n → (∀ x ∈ r.inflight, x.when_ ≤ now) →
+      let m := M.final ⟨now, fs, r⟩ (picks.map (fun p => MOp.ring (.next p)))
+      m.ring.inflight = [] ∧ m.ring.ready.flatten = [] ∧ m.ring.sq = r.sq ∧
+      m.ring.drained.length = r.drained.length + n := by
+  intro n
+  induction n with
+  | zero =>
+    intro fs r picks hp hv hlen hmat
+    have : picks = [] := List.eq_nil_of_length_eq_zero hp
+    subst this
+    have hpool : pool r = [] := List.eq_nil_of_length_eq_zero hlen
+    simp only [pool, List.append_eq_nil_iff] at hpool
+    simp [M.final, hpool.1, hpool.2]
+  | succ n ih =>
+    intro fs r picks hp hv hlen hmat
+    match picks, hp with
+    | pick :: picks, hp =>
+      have hp' : picks.length = n := by simpa using hp
+      obtain ⟨hfr, hperm, hready⟩ := promote_spec r now
+      -- after promotion nothing is in flight
+      have hinfl : (promote r now).inflight = [] := by
+        unfold promote
+        split
+        · rename_i hnil
+          apply List.eq_nil_iff_forall_not_mem.mpr
+          intro x hx
+          have : x ∈ List.filter (fun x => decide (x.when_ ≤ now)) r.inflight :=
+            List.mem_filter.mpr ⟨hx, by simpa using hmat x hx⟩
+          rw [hnil] at this; cases this
+        · apply List.eq_nil_iff_forall_not_mem.mpr
+          intro x hx
+          have := List.mem_filter.mp hx
+          have h1 := hmat x this.1
+          simp [h1] at this
+      have hpl : (pool (promote r now)).length = n + 1 := by rw [hperm.length_eq]; exact hlen
+      have hne : (promote r now).ready.flatten ≠ [] := by
+        intro h0
+        simp [pool, hinfl, h0] at hpl
+      obtain ⟨x, ready', hpop⟩ := popPick_some_of_ne pick hne
+      have hpp := popPick_perm hpop
+      have hstep : (M.step ⟨now, fs, r⟩ (.ring (.next pick))).1 =
+          ⟨now, (exec fs x.apply).1, afterPop (promote r now) ready' n (doneOf x (exec fs x.apply).2.1 now)⟩ := by
+        simp [M.step, ringStep_next_some hv hpop]
+      have hlen' : (pool (afterPop (promote r now) ready' n (doneOf x (exec fs x.apply).2.1 now))).length = n := by
+        have h1 := hpp.length_eq
+        simp only [pool, afterPop, hinfl, List.nil_append, List.length_cons] at hpl h1 ⊢
+        omega
+      have := ih (exec fs x.apply).1 _ picks hp' rfl hlen' (by intro y hy; simp [afterPop, hinfl] at hy)
+      simp only [List.map_cons, M.final]
+      rw [hstep]
+      obtain ⟨h1, h2, h3, h4⟩ := this
+      refine ⟨h1, h2, ?_, ?_⟩
+      · rw [h3]; exact hfr.sq
+      · rw [h4]; simp only [afterPop, List.length_append, List.length_cons, List.length_nil, hfr.drained]; omega
+
+/-- … and `sync` reports exactly the pool size once everything in flight has matured. -/
+theorem sync_sees_all (now : Nat) (fs : Files) (r : RingSt) (hmat : ∀ x ∈ r.inflight, x.when_ ≤ now) :
+    (ringStep now fs r .cqsync).2.2 = .synced (pool r).length ∧
+    (ringStep now fs r .cqsync).1.visible = some (pool r).length ∧
+    pool (ringStep now fs r .cqsync).1 = pool r := by
+  have hf : r.inflight.filter (fun x => decide (x.when_ ≤ now)) = r.inflight :=
+    List.filter_eq_self.mpr (fun x hx => by simpa using hmat x hx)
+  have hc : readyCount r now = (pool r).length := by
+    simp only [readyCount, hf, pool, List.length_append]; omega
+  simp [ringStep, hc, pool]
+
+example :
+    let m := M.final (M.init 4 ⟨[⟨[1, 2, 3], [1, 2, 3]⟩], [(0, true)]⟩)
+      [.ring (.push ⟨7, .read 0 0 2, false⟩), .ring (.push ⟨8, .write 0 1 [9], false⟩), .ring (.push ⟨9, .cancel 7, false⟩),
+       .ring (.submit [5, 3]), .advance 10, .ring .cqsync]
+    m.ring.visible = some 3 ∧ (pool m.ring).length = 3 ∧ ∀ x ∈ m.ring.inflight, x.when_ ≤ m.now := by
+  decide
+
 /-- What a gone ring answers: never a completion. -/
 theorem goneOut_no_cqe (op : ROp) : ∀ ud res buf, goneOut op ≠ .ring (.cqe ud res buf) := by
   intro ud res buf; cases op <;> simp [goneOut]
